@@ -2,7 +2,7 @@
    `period/average` is the limiter's integer time-per-token (Go integer division, at least 1 ns).
    One Req op = one consumeRates critical section; histories are arbitrary sequences of requests of any
    number of sources, with clock advances of any length in between. *)
-From Oxy Require Import Base.Prelude Model.Bucket Model.Limiter Proofs.BucketProofs Proofs.SetProofs Proofs.LimiterProofs.
+From Oxy Require Import Base.Prelude Model.Bucket Model.Limiter Proofs.BucketProofs Proofs.BucketInstant Proofs.SetProofs Proofs.LimiterProofs.
 Open Scope Z_scope.
 
 (* One bucket, from ANY reachable state, over ANY window of its history (requests that the set rolled back
@@ -67,3 +67,20 @@ Proof. split; [|split; [|split; [|split]]].
   - split; [repeat constructor; cbn; intuition lia|]. split; [cbn; lia|]. cbn. intuition.
   - cbn. lia.
   - vm_compute. reflexivity. Qed.
+
+(* at one instant -- k unit requests of a source issued at the same reading of the clock, in whatever order they take the
+   limiter's lock -- a bucket admits exactly as many as it holds tokens, min(k, available), and every admission takes
+   exactly one token: no request is admitted on a token that another one has taken (the oracle of harness/rlstress A, E) *)
+Theorem C03_exact_burst_at_one_instant : forall now k b, settled now b ->
+  fst (admits now k b) = Z.min (Z.of_nat k) (avail b) /\
+  avail (snd (admits now k b)) = avail b - Z.min (Z.of_nat k) (avail b) /\
+  settled now (snd (admits now k b)).
+Proof. exact admits_exactly. Qed.
+Print Assumptions C03_exact_burst_at_one_instant.
+
+(* non-vacuity: rate 1 per hour, burst 2000, 1999 tokens left: twelve simultaneous requests are all admitted; with 5 tokens
+   left exactly five of them are *)
+Example C03_exact_burst_example :
+  let b a := {| period := 3600000000000; tpt := 3600000000000; burst := 2000; avail := a; last := 100; lastConsumed := 1 |} in
+  settled 100 (b 1999) /\ fst (admits 100 12 (b 1999)) = 12 /\ fst (admits 100 12 (b 5)) = 5.
+Proof. split; [unfold settled; cbn; lia|]. split; vm_compute; reflexivity. Qed.
